@@ -36,7 +36,7 @@ FDS_FUNCS = [FDS_ + n for n in ("_write_non_versioned_link", "output", "_read_no
                                 "exists_versioned", "input_nonversioned", "input_versioned", "_delete_non_versioned_link", "delete_nonversioned_key", "_get_path_versioned@metadata-key")]
 # the metadata area's path scheme and the forget operations on top of the abstract data source
 META_PATH_FUNCS = ["storage_base:DataSourceMetadataSource." + n for n in ("_get_function_path", "_get_path", "_get_metadata_path", "_get_metadata_key",
-                                                                          "forget_call", "forget_function", "forget_everything", "put_memento", "write_metadata", "list_mementos", "list_functions")]
+                                                                          "forget_call", "forget_function", "forget_everything", "put_memento", "write_metadata", "list_mementos", "list_functions", "all_mementos_exist")]
 prop("C05",
      modules=["storage", "codec"],
      # ... and the file-system data source (versioned objects, link files): its contracts over the ghost file system (written for C08) are what makes the
